@@ -8,7 +8,7 @@ Record ep := { e_hs : hs; e_rx : rx }.
 Definition ep0 : ep := {| e_hs := hs0; e_rx := rx_init |}.
 
 Definition event_of (h : hhdr) : sevent :=
-  if h_stype h =? 0 then EvData (h_system h) (h_w h) true else EvCtrl (h_stype h) (h_system h) (h_function h).
+  if h_stype h =? 0 then EvData (h_system h) (h_w h || (Z.odd (h_function h) && negb (h_stream h =? 9))) true else EvCtrl (h_stype h) (h_system h) (h_function h).
 
 Fixpoint deliver (s : hs) (outs : list rx_out) : hs * list sout :=
   match outs with
